@@ -35,6 +35,7 @@ type ResetCase struct {
 	Deps    [][]int `json:"deps"`
 	St      []int   `json:"st"`
 	Cleared []bool  `json:"cleared"`
+	Partial []int   `json:"partial,omitempty"`
 	Err     string  `json:"err,omitempty"`
 }
 
@@ -184,7 +185,10 @@ func resetCase(stream string, k, n int, deps [][]int, st []int) ResetCase {
 	steps := mkSteps(n, deps, nil, nil, nil, nil)
 	nodes := make([]*scheduler.Node, n)
 	for i := range steps {
-		nodes[i] = scheduler.NewNode(steps[i], scheduler.NodeState{Status: scheduler.NodeStatus(st[i]), Log: "marker", RetryCount: 1})
+		// every field of the recorded state is set: a step that runs again must start from the zero state (a retry budget
+		// already used up in the recorded run, or its done count, must not be carried into the retry run)
+		nodes[i] = scheduler.NewNode(steps[i], scheduler.NodeState{Status: scheduler.NodeStatus(st[i]), Log: "marker", RetryCount: 1,
+			DoneCount: 2, StartedAt: time.Unix(1700000000, 0), FinishedAt: time.Unix(1700000001, 0), RetriedAt: time.Unix(1700000002, 0)})
 	}
 	c := ResetCase{Stream: stream, K: k, N: n, Deps: deps, St: st, Cleared: make([]bool, n)}
 	g, err := scheduler.NewExecutionGraphForRetry(quietLog, nodes...)
@@ -193,7 +197,10 @@ func resetCase(stream string, k, n int, deps [][]int, st []int) ResetCase {
 		return c
 	}
 	for i, nd := range g.Nodes() {
-		c.Cleared[i] = nd.State().Log == "" && nd.State().Status == scheduler.NodeStatusNone
+		c.Cleared[i] = nd.State() == scheduler.NodeState{}
+		if !c.Cleared[i] && (nd.State().Status != scheduler.NodeStatus(st[i]) || nd.State().Log != "marker" || nd.State().RetryCount != 1 || nd.State().DoneCount != 2) {
+			c.Partial = append(c.Partial, i) // neither kept as recorded nor reset to the zero state
+		}
 	}
 	return c
 }
